@@ -357,6 +357,8 @@ void warmup()
   p.ops.push_back(sim::Op("obj_ctx").set("name", 0));
   p.ops.push_back(sim::Op("obj_parent").set("p", 1).set("name", 1));
   p.ops.push_back(sim::Op("enabled").set("o", 1).set("l", 1));
+  p.property = prop::id;
+  sim::detail::announce_warmup(p);
   sim::Ctx ctx;
   try
   {
